@@ -524,6 +524,23 @@ func sInstallDurable(c *Ctx, rule string) {
 			}
 		}
 	})
+	// Close publishes the snapshot (FileSnapshotStore renames it into place and
+	// reaps older ones): it is reached only for a complete copy – a truncated
+	// stream must be cancelled, never closed, or a crash before the retry
+	// leaves a short snapshot as the newest durable one
+	nClose := 0
+	for _, s := range c.P.CallsIn(fn, engine.IfaceMethod("Close", "io.Closer", "SnapshotSink", "io.WriteCloser")) {
+		if !strings.HasPrefix(c.P.D(engine.RecvValue(s.Instr)), "recv.snapshots.Create(") {
+			continue
+		}
+		nClose++
+		c.RequireAt(r, rule, "installSnapshot:close-only-complete-copy", s.Instr, "the sink is closed (published) only after the copy returned no error and the byte count equals req.Size", func(v engine.View) bool {
+			return v.Seen("create") && v.F("createErr") && v.Seen("copy") && v.F("copyErr") && v.F("short")
+		})
+	}
+	if nClose == 0 {
+		c.Bad(rule, "installSnapshot:close", c.P.Pos(fn.Pos()), "a Close of the snapshot sink", "none found")
+	}
 	for _, callee := range []string{"(*raftState).setLastApplied", "(*raftState).setLastSnapshot", "(*Raft).setLatestConfiguration", "(*Raft).setCommittedConfiguration", "(*Raft).compactLogs", "(*Raft).removeOldLogs"} {
 		ss := c.P.CallsIn(fn, engine.Is(callee))
 		if len(ss) == 0 {
